@@ -8,16 +8,6 @@ clause table `KM.Gen.certgenClauses` regenerated from the source on every run. -
 namespace KM.CertGen
 open KM.Auth KM.Site KM.Gen
 
-/-- the factor bit each operator setting stands for (specification side; bit values from Gen.Consts) -/
-def factorBit (pref : List Char) : Option Nat :=
-  if pref == protoAuthTypeU2F.toList then some authTypeU2F
-  else if pref == protoAuthTypeTOTP.toList then some authTypeTOTP
-  else if pref == protoAuthTypeSymantecVIP.toList then some authTypeSymantecVIP
-  else if pref == protoAuthTypeIPCertificate.toList then some authTypeIPCertificate
-  else if pref == protoAuthTypeOkta2FA.toList then some authTypeOkta2FA
-  else if pref == protoAuthTypeWebauthForCLI.toList then some authTypeWebauthForCLI
-  else Option.none
-
 /-- what the property demands before a certificate may be issued -/
 def SpecSufficient (allowed : List (List Char)) (level : Nat) : Prop :=
   protoAuthTypePassword.toList ∈ allowed ∨ hasAll level authTypeU2F = true ∨
@@ -277,6 +267,45 @@ theorem spec_sufficient (allowed : List (List Char)) (level : Nat)
     have ht : c.test = ClauseTest.hasAll b := by simpa using hcc.2
     rw [ht, Bool.and_eq_true]
     exact ⟨hcc.1, hh⟩
+
+/-- **The judge is the statement's**: the Boolean rule the check's judge applies (`specSufficientB`, no
+regenerated table) is the specification, and on the current tree the table-driven model decides the same. -/
+theorem c01_spec_judge (allowed : List (List Char)) (level : Nat) :
+    (specSufficientB allowed level = true ↔ SpecSufficient allowed level) ∧
+    sufficient certgenClauses certgenAlwaysBits allowed level = specSufficientB allowed level := by
+  have hiff : specSufficientB allowed level = true ↔ SpecSufficient allowed level := by
+    unfold specSufficientB SpecSufficient
+    rw [Bool.or_eq_true, Bool.or_eq_true]
+    constructor
+    · rintro ((h | h) | h)
+      · left; simpa using h
+      · right; left; exact h
+      · right; right
+        rw [List.any_eq_true] at h
+        obtain ⟨f, hf, hh⟩ := h
+        cases hb : factorBit f with
+        | none => simp [hb] at hh
+        | some b => exact ⟨f, hf, b, hb, by simpa [hb] using hh⟩
+    · rintro (h | h | ⟨f, hf, b, hb, hh⟩)
+      · left; left; simpa using h
+      · left; right; exact h
+      · right
+        rw [List.any_eq_true]
+        exact ⟨f, hf, by simp [hb, hh]⟩
+  refine ⟨hiff, ?_⟩
+  cases hs : specSufficientB allowed level with
+  | true => exact spec_sufficient allowed level (hiff.mp hs)
+  | false =>
+    cases hc : sufficient certgenClauses certgenAlwaysBits allowed level with
+    | false => rfl
+    | true =>
+      have := hiff.mpr (sufficient_spec _ _ c01_table.1 c01_table.2.1 allowed level hc)
+      rw [hs] at this; cases this
+
+theorem c01_judge_is_model (cfg : Cfg) (allowed : List (List Char)) (r : CGReq) :
+    specDecide cfg allowed r = decide cfg allowed r := by
+  unfold specDecide decide decideWith
+  simp only [(c01_spec_judge allowed _).2]
 
 /-- **Completeness**: a user holding a valid session (at least one factor bit) whose level meets
 the specification's condition, asking with POST for their own name on an unsealed server, with a
